@@ -87,13 +87,20 @@ enum Op {
     Line(&'static str),
     /// write_all of bytes holding two printable runs
     All(&'static [u8]),
+    /// write!/writeln! with a literal-only format string (no arguments: `Arguments::as_str()` is Some)
+    Lit(u8),
 }
+
+const LIT0: &str = "k\x1b[1ml\x1b[0m";
+const LIT1: &str = "n\x1b[4mo";
 
 fn op_input(op: Op) -> Vec<u8> {
     match op {
         Op::Fmt2(a, b) => format!("{a}{b}").into_bytes(),
         Op::Line(a) => format!("{a}\n").into_bytes(),
         Op::All(b) => b.to_vec(),
+        Op::Lit(0) => LIT0.as_bytes().to_vec(),
+        Op::Lit(_) => format!("{LIT1}\n").into_bytes(),
     }
 }
 
@@ -117,6 +124,8 @@ fn run_op(s: &mut AnyStream, op: Op) {
                 Op::Fmt2(a, b) => write!($s, "{}{}", a, b).unwrap(),
                 Op::Line(a) => writeln!($s, "{}", a).unwrap(),
                 Op::All(b) => $s.write_all(b).unwrap(),
+                Op::Lit(0) => write!($s, "k\x1b[1ml\x1b[0m").unwrap(),
+                Op::Lit(_) => writeln!($s, "n\x1b[4mo").unwrap(),
             }
         };
     }
@@ -140,10 +149,14 @@ fn scenarios() -> Vec<Scenario> {
     let l1 = Op::Line("e\x1b[mf");
     let w1 = Op::All(b"g\x1b[32mh");
     let w2 = Op::All(b"i\x1b[0mj\n");
+    let k0 = Op::Lit(0);
+    let k1 = Op::Lit(1);
     let mut v = vec![];
     for (mode, mn) in [(Mode::Never, "never"), (Mode::AlwaysAnsi, "always_ansi"), (Mode::Strip, "strip")] {
         v.push(Scenario { name: leak(format!("{mn}/2x1/fmt-fmt")), mode, threads: vec![vec![f1], vec![f2]], preemptions: 3, thorough_only: false });
         v.push(Scenario { name: leak(format!("{mn}/2x1/line-all")), mode, threads: vec![vec![l1], vec![w1]], preemptions: 3, thorough_only: false });
+        v.push(Scenario { name: leak(format!("{mn}/2x1/lit-lit")), mode, threads: vec![vec![k0], vec![k1]], preemptions: 3, thorough_only: false });
+        v.push(Scenario { name: leak(format!("{mn}/2x2/lit,fmt-line,lit")), mode, threads: vec![vec![k0, f2], vec![l1, k1]], preemptions: 2, thorough_only: false });
         v.push(Scenario { name: leak(format!("{mn}/2x2/fmt,all-line,all")), mode, threads: vec![vec![f1, w1], vec![l1, w2]], preemptions: 2, thorough_only: false });
         v.push(Scenario { name: leak(format!("{mn}/3x1/fmt-line-all")), mode, threads: vec![vec![f1], vec![l1], vec![w1]], preemptions: 2, thorough_only: false });
         v.push(Scenario { name: leak(format!("{mn}/3x1/fmt-line-all/p3")), mode, threads: vec![vec![f1], vec![l1], vec![w1]], preemptions: 3, thorough_only: true });
